@@ -5,6 +5,7 @@ import (
 	"fmt"
 	"os"
 	"path/filepath"
+	"runtime"
 	"strconv"
 	"testing"
 	"time"
@@ -13,16 +14,16 @@ import (
 // ReplayFile is the on-disk format of a violation: re-executing Tape with Seed
 // on the same code reproduces Violation.
 type ReplayFile struct {
-	Property  string     `json:"property"`
-	Tier      string     `json:"tier"`
-	Seed      uint64     `json:"seed"`
-	Tape      []int      `json:"tape"`
-	Labels    []string   `json:"labels,omitempty"`
-	Violation *Violation `json:"violation"`
-	OrigTape  int        `json:"original_tape_len"`
-	MinRuns   int        `json:"minimise_runs"`
+	Property  string         `json:"property"`
+	Tier      string         `json:"tier"`
+	Seed      uint64         `json:"seed"`
+	Tape      []int          `json:"tape"`
+	Labels    []string       `json:"labels,omitempty"`
+	Violation *Violation     `json:"violation"`
+	OrigTape  int            `json:"original_tape_len"`
+	MinRuns   int            `json:"minimise_runs"`
 	Faults    map[string]int `json:"faults"`
-	Log       []string   `json:"log"`
+	Log       []string       `json:"log"`
 	// Generate: ignore Tape and regenerate the run from Seed (process deaths,
 	// where no tape could be recorded).
 	Generate bool `json:"generate,omitempty"`
@@ -275,6 +276,9 @@ func armWallLimit(p *Property, seed uint64) (stop func()) {
 		limit = time.Duration(v) * time.Second
 	}
 	tm := time.AfterFunc(limit, func() {
+		buf := make([]byte, 1<<20)
+		buf = buf[:runtime.Stack(buf, true)]
+		fmt.Printf("goroutines at the wall limit:\n%s\n", buf)
 		fmt.Printf("HANG property=%s seed=%d: the run did not finish within %v of real time - goroutines of the simulated system are blocked outside every seam (the simulator cannot take another step)\n", p.ID, seed, limit)
 		os.Exit(3)
 	})
